@@ -85,6 +85,47 @@ func runAll(f *flags, w *propWork, dir string) []*oblResult {
 					}
 				}
 			}
+			if (useHybrid || (x.con != nil && x.con.Hybrid)) && q.lazyInst && !q.Ob.mustSat {
+				// solver-side quantifiers first (E-matching), all hypotheses
+				// premise selection applies here as well: the most relevant hypotheses first
+				for _, k := range []int{8, 20} {
+					if k >= q.NHyps {
+						continue
+					}
+					x.mu.Lock()
+					q.fullK(k)
+					x.mu.Unlock()
+					if q.Err != nil || q.QScript == "" {
+						break
+					}
+					sres, ssolver, sms, sout, sper := runSolvers(dir, fmt.Sprintf("%s_hyb_k%d", r.Name, k), q.QScript, 6, false, f.seed)
+					if sres == "unsat" {
+						r.Result, r.Solver, r.Ms, r.output, r.PerSolver = sres, fmt.Sprintf("%s/hybrid/k%d", ssolver, k), sms, sout, sper
+						r.Size = len(q.QScript)
+						return
+					}
+				}
+				x.mu.Lock()
+				q.fullK(0)
+				x.mu.Unlock()
+				if q.Err == nil && q.QScript != "" {
+					hres, hsolver, hms, hout, hper := runSolvers(dir, r.Name+"_hyb", q.QScript, 10, false, f.seed)
+					if hres == "unsat" || (x.con != nil && x.con.Hybrid) {
+						// a contract that asks for solver-side quantifiers gets no generator-instantiated
+						// fallback (its instances explode); an undischarged obligation stays undecided
+						if hres != "unsat" && f.tier == "quick" {
+							hres2, hsolver2, hms2, hout2, hper2 := runSolvers(dir, r.Name+"_hyb", q.QScript, 30, false, f.seed+7919)
+							if hres2 == "unsat" {
+								hres, hsolver, hms, hout, hper = hres2, hsolver2, hms+hms2, hout2, hper2
+							}
+						}
+						r.Result, r.Solver, r.Ms, r.output, r.PerSolver = hres, hsolver+"/hybrid", hms, hout, hper
+						r.Size = len(q.QScript)
+						return
+					}
+				}
+				q.noHybrid = true
+			}
 			for _, k := range stages {
 				x.mu.Lock()
 				q.fullK(k)
